@@ -369,6 +369,14 @@ impl Database {
 
         if dirty_regions.is_empty() {
             debug!("{}: flush (no dirty)", self);
+            // A removed region leaves no dirty region behind, only a zeroed slot and a
+            // pending hole. The zeroed slot must be durable before its extent becomes
+            // reusable (or punchable), otherwise a crash resurrects the region on top of
+            // whatever was put there since.
+            if self.layout().has_pending_holes() {
+                self.regions().flush()?;
+                self.regions().sync_data()?;
+            }
             self.layout_mut().promote_pending_holes(self.name());
             return Ok(0);
         }
